@@ -222,7 +222,10 @@ def build_harness(profile="debug"):
         return os.path.join(TARGET, profile, "cbverif-harness"), time.time() - t0
 
 
-def run_lines(binary, lines, args=("lines",), timeout=900, env=None):
+CHUNK = 1500      # cases per harness process (ShmWriter::new keeps one descriptor per call; also gives parallelism)
+
+
+def _run_chunk(binary, lines, args, timeout, env):
     data = "\n".join(lines) + "\n"
     e = dict(ENV)
     if env:
@@ -237,6 +240,16 @@ def run_lines(binary, lines, args=("lines",), timeout=900, env=None):
     if len(out) != len(lines):
         raise CheckError("%s: %d result lines for %d cases\n%s" % (binary, len(out), len(lines), p.stderr[-2000:]))
     return out
+
+
+def run_lines(binary, lines, args=("lines",), timeout=900, env=None):
+    if len(lines) <= CHUNK:
+        return _run_chunk(binary, lines, args, timeout, env)
+    from concurrent.futures import ThreadPoolExecutor
+    chunks = [lines[i:i + CHUNK] for i in range(0, len(lines), CHUNK)]
+    with ThreadPoolExecutor(max_workers=8) as ex:
+        outs = list(ex.map(lambda ch: _run_chunk(binary, ch, args, timeout, env), chunks))
+    return [x for o in outs for x in o]
 
 
 def run_model(lines, timeout=900):
@@ -425,9 +438,7 @@ def run_daemon_in_namespace(binary, args, wait_s=6.0):
     return json.loads(p.stdout.strip().splitlines()[-1])
 
 
-def run_lines_in_namespace(binary, lines, timeout=900):
-    """Like run_lines, but the harness runs in a private mount namespace with an empty tmpfs on /run
-    (so that it can own /var/run/chrony/chronyd.sock)."""
+def _run_chunk_ns(binary, lines, timeout):
     data = "\n".join(lines) + "\n"
     cmd = ["timeout", str(timeout), "unshare", "-m", "sh", "-c",
            "mount -t tmpfs tmpfs /run && mkdir -p /run/chrony && exec '%s' lines" % binary]
@@ -440,3 +451,15 @@ def run_lines_in_namespace(binary, lines, timeout=900):
     if len(out) != len(lines):
         raise CheckError("%s: %d result lines for %d cases\n%s" % (binary, len(out), len(lines), p.stderr[-2000:]))
     return out
+
+
+def run_lines_in_namespace(binary, lines, timeout=900):
+    """Like run_lines, but each harness process runs in a private mount namespace with an empty tmpfs on
+    /run (so that it can own /var/run/chrony/chronyd.sock and /var/run/clockbound)."""
+    if len(lines) <= 200:
+        return _run_chunk_ns(binary, lines, timeout)
+    from concurrent.futures import ThreadPoolExecutor
+    chunks = [lines[i:i + 200] for i in range(0, len(lines), 200)]
+    with ThreadPoolExecutor(max_workers=8) as ex:
+        outs = list(ex.map(lambda ch: _run_chunk_ns(binary, ch, timeout), chunks))
+    return [x for o in outs for x in o]
